@@ -91,6 +91,7 @@ type loopCtx struct {
 	info     *loopInfo
 	entrySt  *State // state at header after havoc
 	variant0 Term
+	invLine  map[string]int // line index of the header assumption of each invariant (staged loops)
 	fnOld    *State
 	preSt    *State
 }
